@@ -189,6 +189,8 @@ def run(ctx):
                 viol[b] = bk.expect_model_violation(ctx, "GC.tla", bk.bug_cfg(ctx, "c08_gc_exh_quick.cfg", b, extra), ["NoLoss", "NoErrs"], timeout=3000)
         ctx.cov["broken_variants_violating_NoLoss"] = viol
         ctx.tlc_check("RepoGC.tla", "c08_repo_exh_quick.cfg", timeout=3000)
+        if ctx.tier == "thorough":
+            ctx.tlc_check("RepoGC.tla", "c08_repo_exh_thorough.cfg", timeout=4 * 3600)
     ctx.cov["rule"] = (
         "R: behaviours = TLC simulation of RepoGC.tla (two action mixes: merge-centred and working-set-centred; GC in 7 modes, Reopen, a "
         "collection inside a rebase), the most GC-relevant ones selected, each replayed on the real SQL engine: projection of the whole "
@@ -207,10 +209,13 @@ def run(ctx):
         "ValueStore / NomsBlockStore internals (gcState, gcOut, gcNewAddrs, gcInProgress) are READ through reflection; nothing in dolt is modified",
         "statistics refs and remote-tracking refs are not created by the histories (no remote, statistics workers not started)"]
     first = True
+    only = set(filter(None, os.environ.get("BK_ONLY", "").split(",")))   # developer knob for mutation runs: repo,vs,sql,hazards
+    if only:
+        ctx.notes.append("BK_ONLY=%s: only these conformance parts were run (mutation run)" % ",".join(sorted(only)))
     # ---------------------------------------------------------------- 2. R: repository histories
     total = collections.Counter()
-    for cfg, num, depth, keep in [(ctx.q("c08_repo_sim_merge_quick.cfg", "c08_repo_sim_merge_thorough.cfg"), ctx.q(100, 2500), ctx.q(36, 50), ctx.q(16, 500)),
-                                  (ctx.q("c08_repo_sim_ws_quick.cfg", "c08_repo_sim_ws_thorough.cfg"), ctx.q(80, 2000), ctx.q(34, 48), ctx.q(10, 400))]:
+    for cfg, num, depth, keep in [] if only and "repo" not in only else [(ctx.q("c08_repo_sim_merge_quick.cfg", "c08_repo_sim_merge_thorough.cfg"), ctx.q(40, 800), ctx.q(36, 50), ctx.q(12, 160)),
+                                  (ctx.q("c08_repo_sim_ws_quick.cfg", "c08_repo_sim_ws_thorough.cfg"), ctx.q(32, 600), ctx.q(34, 48), ctx.q(8, 120))]:
         beh = ctx.tlc_behaviours("RepoGC.tla", cfg, num=num, depth=depth, timeout=ctx.q(1800, 3 * 3600))
         beh = bk.dedupe_prefix(beh, lambda b: b["steps"])
         beh = bk.select(beh, bk.repo_score, keep)
@@ -228,16 +233,16 @@ def run(ctx):
         bk.add_outcomes(ctx, "R_outcomes", agg)
         ctx.cov["R_collections"] = ctx.cov.get("R_collections", 0) + sum(r.get("gcs", 0) for r in res)
         ctx.cov["R_chunks_walked"] = ctx.cov.get("R_chunks_walked", 0) + sum(r.get("chunks_walked", 0) for r in res)
-    for b in sorted(cases, key=lambda c: -bk.repo_score({"steps": c["steps"], "mid": c["mid"]}))[:1]:
+    for b in [] if only and "repo" not in only else sorted(cases, key=lambda c: -bk.repo_score({"steps": c["steps"], "mid": c["mid"]}))[:1]:
         ctx.sample({"mode": "repo", "steps": ["%s %s(%s) -> %s%s" % (s["s"], s["a"], json.dumps(s["args"], sort_keys=True) if s["args"] else "", s["res"], (" [gc inside: %s]" % m) if m else "")
                                                 for s, m in zip(b["steps"], b["mid"])]})
     # ---------------------------------------------------------------- 3. G: gated schedules
-    for mode, cfg, num, depth in [("vs", ctx.q("c08_gc_sched_quick.cfg", "c08_gc_sched_thorough.cfg"), ctx.q(100, 1500), ctx.q(70, 110)),
-                                  ("sql", ctx.q("c08_gc_sql_quick.cfg", "c08_gc_sql_thorough.cfg"), ctx.q(32, 500), ctx.q(70, 110))]:
+    for mode, cfg, num, depth in [x for x in [("vs", ctx.q("c08_gc_sched_quick.cfg", "c08_gc_sched_thorough.cfg"), ctx.q(48, 600), ctx.q(70, 110)),
+                                  ("sql", ctx.q("c08_gc_sql_quick.cfg", "c08_gc_sql_thorough.cfg"), ctx.q(24, 200), ctx.q(70, 110))] if not only or x[0] in only]:
         beh = ctx.tlc_behaviours("GC.tla", cfg, num=num, depth=depth, timeout=ctx.q(1800, 3 * 3600))
         beh = bk.dedupe_prefix(beh, lambda b: b)
         if mode == "sql":
-            beh = bk.select(beh, lambda b: sum(1 for s in b if s["a"] in ("Swap",) or s["res"] in ("waitfin", "blocked")), ctx.q(16, 300))
+            beh = bk.select(beh, lambda b: sum(1 for s in b if s["a"] in ("Swap",) or s["res"] in ("waitfin", "blocked")), ctx.q(12, 100))
         sess = bk.gc_sessions(cfg)
         cases = []
         for i, b in enumerate(beh):
@@ -267,9 +272,10 @@ def run(ctx):
         for c in cases[:1]:
             ctx.sample({"mode": mode, "steps": ["%s %s%s -> %s" % (s["s"], s["a"], json.dumps(s["args"], sort_keys=True) if s["args"] else "", s["res"]) for s in c["steps"][1:]]})
     # ---------------------------------------------------------------- 4. H: scripted hazards
-    hz = hazards()
-    res, agg, _ = bk.run_cases(ctx, binary, "rich", hz, lambda c, r: True, "C08")
-    ctx.cov["hazards"] = {c["name"]: ("ok" if r.get("ok") else str(r.get("fp"))) for c, r in zip(hz, res)}
+    if not only or "hazards" in only:
+        hz = hazards()
+        res, agg, _ = bk.run_cases(ctx, binary, "rich", hz, lambda c, r: True, "C08")
+        ctx.cov["hazards"] = {c["name"]: ("ok" if r.get("ok") else str(r.get("fp"))) for c, r in zip(hz, res)}
     missing = [a for a in ["GC:ok", "Reopen:ok", "Rebase:ok:gc-inside"] if total.get(a, 0) == 0]
-    if missing and not ctx.violations and not ctx.known_hits:
+    if missing and not ctx.violations and not ctx.known_hits and not only:
         raise vlib.Inconclusive("generator vacuity: never replayed: %s (histogram %s)" % (missing, dict(total)))
